@@ -185,16 +185,30 @@ def pool_map(fn, items, procs=None, chunksize=None):
         return pool.map(fn, items, chunksize=chunksize)
 
 
+_POOL_FN = None
+_POOL_STOP = None
+
+
+def _pool_guarded(pair):
+    if _POOL_STOP is not None and _POOL_STOP.is_set():
+        return pair[0], None
+    return pair[0], _POOL_FN(pair[1])
+
+
 def pool_run(fn, items, is_bad, stop_after=25, procs=None):
-    """Unordered parallel map that stops scheduling once `stop_after` results are
-    bad (a broken tree can make every scenario slow; one report per class is
-    enough).  Returns list of (item, result)."""
+    """Unordered fork-based parallel map that stops evaluating once `stop_after`
+    results are bad (a broken tree can make every scenario slow; one report per
+    class is enough).  The stop is cooperative (a fork-inherited Event turns the
+    remaining tasks into no-ops and the iterator is drained): terminating a pool
+    whose workers are mid-send can deadlock.  Returns [(item, result)] of the
+    items actually evaluated."""
     import multiprocessing as mp
+    global _POOL_FN, _POOL_STOP
     items = list(items)
     procs = procs or min(16, os.cpu_count() or 1)
     out = []
+    bad = 0
     if procs <= 1 or len(items) < 4:
-        bad = 0
         for it in items:
             r = fn(it)
             out.append((it, r))
@@ -203,28 +217,25 @@ def pool_run(fn, items, is_bad, stop_after=25, procs=None):
                 break
         return out
     ctx = mp.get_context("fork")
+    _POOL_FN = fn
+    _POOL_STOP = ctx.Event()
     chunksize = max(1, min(64, len(items) // (procs * 16)))
     pool = ctx.Pool(procs)
-    bad = 0
     try:
-        for i, r in pool.imap_unordered(_Indexed(fn), list(enumerate(items)), chunksize=chunksize):
+        for i, r in pool.imap_unordered(_pool_guarded, list(enumerate(items)), chunksize=chunksize):
+            if r is None:
+                continue
             out.append((items[i], r))
             if is_bad(r):
                 bad += 1
                 if bad >= stop_after:
-                    break
-    finally:
-        pool.terminate()
+                    _POOL_STOP.set()
+        pool.close()
         pool.join()
+    except BaseException:
+        pool.terminate()
+        raise
     return out
-
-
-class _Indexed(object):
-    def __init__(self, fn):
-        self.fn = fn
-
-    def __call__(self, pair):
-        return pair[0], self.fn(pair[1])
 
 
 def run_main(main):
